@@ -53,7 +53,7 @@ def assertPostG (ev : Contract → Res Bool) (mk : Contract → Res Raised) :
       else assertPostG ev mk cs
 
 def checkedG (h : Hooks) (ck : Checker) (call : Call) : Res Id := do
-  let kw := kwargsFromCall ck.paramNames ck.kwdefaults call.args call.kwargs
+  let kw := kwargsFromCall ck.paramNames ck.kwdefaults call.args call.kwargs ck.posOnly
   match assertResolvedKwargsValid (!ck.posts.isEmpty) kw with
   | some e => Res.raise e
   | none => do
